@@ -43,7 +43,7 @@ verus! {
 /// compressing one node onto its own root keeps the forest acyclic and every root unchanged
 pub proof fn lemma_compress_aux(rw: RW, stamp: Map<ExprId, nat>, bound: nat, v: ExprId, r: ExprId, x: ExprId)
     requires stamped(rw, stamp, bound), rw.dom().contains(v), root_of(rw, v, r), v != r
-    ensures root_of(rw.insert(v, r), x, root(rw, x))
+    ensures root_of(rw.insert(v, r), x, rootf(rw, x))
     decreases (if rw.dom().contains(x) { bound - stamp[x] } else { 0 })
 {
     let rw2 = rw.insert(v, r);
@@ -60,19 +60,19 @@ pub proof fn lemma_compress_aux(rw: RW, stamp: Map<ExprId, nat>, bound: nat, v: 
         let y = rw[x];
         if rw.dom().contains(y) { assert(stamp[x] < stamp[rw[x]]); }
         lemma_compress_aux(rw, stamp, bound, v, r, y);
-        // root(rw, x) == root(rw, y)
+        // rootf(rw, x) == rootf(rw, y)
         lemma_root_total(rw, y);
-        let ny = choose|n: nat| iter(rw, y, n) == root(rw, y);
+        let ny = choose|n: nat| iter(rw, y, n) == rootf(rw, y);
         reveal_with_fuel(iter, 2);
-        assert(iter(rw, x, ny + 1) == root(rw, y));
-        lemma_root(rw, x, root(rw, y));
-        let n2 = choose|n: nat| iter(rw2, y, n) == root(rw, y);
-        assert(iter(rw2, x, n2 + 1) == root(rw, y));
+        assert(iter(rw, x, ny + 1) == rootf(rw, y));
+        lemma_root(rw, x, rootf(rw, y));
+        let n2 = choose|n: nat| iter(rw2, y, n) == rootf(rw, y);
+        assert(iter(rw2, x, n2 + 1) == rootf(rw, y));
     }
 }
 pub proof fn lemma_compress(rw: RW, v: ExprId, r: ExprId)
     requires acyclic(rw), rw.dom().contains(v), root_of(rw, v, r), v != r
-    ensures acyclic(rw.insert(v, r)), forall|x: ExprId| #[trigger] root(rw.insert(v, r), x) == root(rw, x)
+    ensures acyclic(rw.insert(v, r)), forall|x: ExprId| #[trigger] rootf(rw.insert(v, r), x) == rootf(rw, x)
 {
     let (stamp, bound) = choose|stamp: Map<ExprId, nat>, bound: nat| stamped(rw, stamp, bound);
     let rw2 = rw.insert(v, r);
@@ -83,19 +83,19 @@ pub proof fn lemma_compress(rw: RW, v: ExprId, r: ExprId)
             if k == v { assert(!rw.dom().contains(r)); } else { assert(rw.dom().contains(rw[k])); }
         }
     }
-    assert forall|x: ExprId| #[trigger] root(rw2, x) == root(rw, x) by {
+    assert forall|x: ExprId| #[trigger] rootf(rw2, x) == rootf(rw, x) by {
         lemma_compress_aux(rw, stamp, bound, v, r, x);
-        lemma_root(rw2, x, root(rw, x));
+        lemma_root(rw2, x, rootf(rw, x));
     }
 }
 pub proof fn lemma_union(rw: RW, d: ExprId, c: ExprId)
     requires acyclic(rw), !rw.dom().contains(d), !rw.dom().contains(c), d != c
-    ensures acyclic(rw.insert(d, c)), forall|x: ExprId| #[trigger] root(rw.insert(d, c), x) == (if root(rw, x) == d { c } else { root(rw, x) })
+    ensures acyclic(rw.insert(d, c)), forall|x: ExprId| #[trigger] rootf(rw.insert(d, c), x) == (if rootf(rw, x) == d { c } else { rootf(rw, x) })
 {
     lemma_acyclic_insert(rw, d, c);
-    assert forall|x: ExprId| #[trigger] root(rw.insert(d, c), x) == (if root(rw, x) == d { c } else { root(rw, x) }) by {
+    assert forall|x: ExprId| #[trigger] rootf(rw.insert(d, c), x) == (if rootf(rw, x) == d { c } else { rootf(rw, x) }) by {
         lemma_root_total(rw, x);
-        lemma_root_insert(rw, d, c, x, root(rw, x));
+        lemma_root_insert(rw, d, c, x, rootf(rw, x));
     }
 }
 
@@ -103,7 +103,7 @@ pub struct ConnectDsu { pub parents: HashMap<ExprId, ExprId>, pub in_connect: Ha
 impl ConnectDsu {
     pub open spec fn inv(&self) -> bool { acyclic(self.parents@) }
     /// abstract state: the class representative of every id, the slot table, the membership set
-    pub open spec fn rep(&self, x: ExprId) -> ExprId { root(self.parents@, x) }
+    pub open spec fn rep(&self, x: ExprId) -> ExprId { rootf(self.parents@, x) }
     pub open spec fn same_classes(&self, o: &ConnectDsu) -> bool { forall|x: ExprId| #[trigger] self.rep(x) == o.rep(x) }
     /// `self.in_connect.iter().copied().collect()`: every member exactly once, in an order the hash set chooses
     #[verifier::external_body]
@@ -114,7 +114,7 @@ impl ConnectDsu {
 pub struct LowererState { pub dsu: ConnectDsu, pub expr_to_widx: HashMap<ExprId, WitnessId> }
 /// what backfill must produce, as a function of the VIEWS only: every member of a connect class that has a slot and no mapping yet gets the class slot
 pub open spec fn backfilled(m0: Map<ExprId, WitnessId>, members: Set<ExprId>, rep: spec_fn(ExprId) -> ExprId, slots: Map<ExprId, WitnessId>) -> Map<ExprId, WitnessId> {
-    Map::new(Set::new(|e: ExprId| m0.dom().contains(e) || (members.contains(e) && slots.dom().contains(rep(e)))),
+    Map::new(m0.dom().union(members.filter(|e: ExprId| slots.dom().contains(rep(e)))),
              |e: ExprId| if m0.dom().contains(e) { m0[e] } else { slots[rep(e)] })
 }
 } // verus!
@@ -128,8 +128,9 @@ def build():
     u.assume('iterating a hash set yields every member exactly once in an unspecified order (connected_vec: no_duplicates, to_set == view) -- the nondeterminism being quantified over')
     u.assume('WitnessAllocator::alloc returns the next id (Kani harness c02_allocator_monotone)')
     u.text(PRELUDE)
-    rw = open(os.path.join(HERE, 'rw_spec.rs')).read().replace('WitnessId', 'ExprId')
+    rw = re.sub(r'\broot\(', 'rootf(', open(os.path.join(HERE, 'rw_spec.rs')).read().replace('WitnessId', 'ExprId'))
     u.text(rw)
+    u.text('verus! { broadcast use {ax::expr_id_key_model, vstd::std_specs::hash::group_hash_axioms}; }')
     u.text(SPEC)
     D = 'circuit/src/builder/compiler/lowerer/connect_dsu.rs'
     IMPL = r'impl ConnectDsu'
@@ -142,8 +143,7 @@ def build():
     f.requires('forest', 'old(self).inv()')
     f.ensures('returns_the_class_representative', 'ret == old(self).rep(x)')
     f.ensures('path_compression_keeps_the_abstract_state', 'final(self).inv() && final(self).same_classes(old(self)) && final(self).in_connect == old(self).in_connect && final(self).root_to_widx == old(self).root_to_widx')
-    f.at_start('''broadcast use ax::expr_id_key_model;
-        let ghost rw0 = self.parents@;
+    f.at_start('''let ghost rw0 = self.parents@;
         let ghost (stamp, bound) = choose|stamp: Map<ExprId, nat>, bound: nat| stamped(rw0, stamp, bound);
         let ghost mut steps: nat = 0;''')
     f.loop('loop {', invariant_except_break=[
@@ -161,12 +161,12 @@ def build():
                 }''')
     f.before('let mut v = x;', 'proof { lemma_root(rw0, x, root); assert(acyclic(rw0)); } let ghost mut vsteps: nat = 0;')
     f.loop('loop {', invariant_except_break=[
-        ('compressed', 'acyclic(self.parents@) && (forall|y: ExprId| #[trigger] root(self.parents@, y) == root(rw0, y)) && self.in_connect == old(self).in_connect && self.root_to_widx == old(self).root_to_widx'),
-        ('walking_the_old_path', 'stamped(rw0, stamp, bound) && iter(rw0, x, vsteps) == v && root(rw0, v) == root && !rw0.dom().contains(root)'),
+        ('compressed', 'acyclic(self.parents@) && (forall|y: ExprId| #[trigger] rootf(self.parents@, y) == rootf(rw0, y)) && self.in_connect == old(self).in_connect && self.root_to_widx == old(self).root_to_widx'),
+        ('walking_the_old_path', 'stamped(rw0, stamp, bound) && iter(rw0, x, vsteps) == v && rootf(rw0, v) == root && !rw0.dom().contains(root)'),
         ('untouched_ahead', 'forall|k: ExprId| rw0.dom().contains(k) && stamp[k] >= (if rw0.dom().contains(v) { stamp[v] } else { bound }) ==> #[trigger] self.parents@.dom().contains(k) && self.parents@[k] == rw0[k]'),
         ('same_keys', 'self.parents@.dom() == rw0.dom()'),
     ], ensures=[
-        ('pass2', 'acyclic(self.parents@) && (forall|y: ExprId| #[trigger] root(self.parents@, y) == root(rw0, y)) && self.in_connect == old(self).in_connect && self.root_to_widx == old(self).root_to_widx'),
+        ('pass2', 'acyclic(self.parents@) && (forall|y: ExprId| #[trigger] rootf(self.parents@, y) == rootf(rw0, y)) && self.in_connect == old(self).in_connect && self.root_to_widx == old(self).root_to_widx'),
     ], decreases='if rw0.dom().contains(v) { bound - stamp[v] } else { 0 }', nth=1)
     f.before('if p == root { break; } self.parents.insert(v, root);', '''proof {
                     assert(rw0.dom().contains(v) && rw0[v] == p);
@@ -176,16 +176,16 @@ def build():
     f.before('self.parents.insert(v, root); v = p;', '''proof {
                     let cur = self.parents@;
                     lemma_root_total(cur, v);
-                    assert(root(cur, v) == root);
+                    assert(rootf(cur, v) == root);
                     assert(v != root);
                     lemma_compress(cur, v, root);
                     lemma_iter_step(rw0, x, vsteps); vsteps = vsteps + 1;
-                    // root(rw0, p) == root(rw0, v)
+                    // rootf(rw0, p) == rootf(rw0, v)
                     lemma_root_total(rw0, p);
-                    let np = choose|n: nat| iter(rw0, p, n) == root(rw0, p);
+                    let np = choose|n: nat| iter(rw0, p, n) == rootf(rw0, p);
                     reveal_with_fuel(iter, 2);
-                    assert(iter(rw0, v, np + 1) == root(rw0, p));
-                    lemma_root(rw0, v, root(rw0, p));
+                    assert(iter(rw0, v, np + 1) == rootf(rw0, p));
+                    lemma_root(rw0, v, rootf(rw0, p));
                 }''')
     f.bind_tail('r_', 'proof { assert(self.same_classes(old(self))); }')
 
@@ -193,7 +193,6 @@ def build():
     un.requires('forest', 'old(self).inv()')
     un.ensures('merges_exactly_the_two_classes', '''final(self).inv() && final(self).in_connect == old(self).in_connect && final(self).root_to_widx == old(self).root_to_widx
             && forall|x: ExprId| #[trigger] final(self).rep(x) == (if old(self).rep(x) == old(self).rep(b) { old(self).rep(a) } else { old(self).rep(x) })''')
-    un.at_start('broadcast use ax::expr_id_key_model;')
     un.before('if ra != rb {', 'let ghost mid = *self; proof { lemma_root_total(self.parents@, a); lemma_root_total(self.parents@, b); }')
     un.before('self.parents.insert(rb, ra);', 'proof { lemma_union(self.parents@, rb, ra); }')
 
@@ -202,7 +201,6 @@ def build():
     cw.requires('forest', 'old(self).inv()')
     cw.ensures('slot_of_the_class', 'ret == (if old(self).root_to_widx@.dom().contains(old(self).rep(expr_id)) { Some(old(self).root_to_widx@[old(self).rep(expr_id)]) } else { None::<WitnessId> })')
     cw.ensures('abstract_state_unchanged', 'final(self).inv() && final(self).same_classes(old(self)) && final(self).in_connect == old(self).in_connect && final(self).root_to_widx == old(self).root_to_widx')
-    cw.at_start('broadcast use ax::expr_id_key_model;')
 
     aw = u.extract(D, IMPL, 'alloc_witness', 'ConnectDsu::alloc_witness')
     aw.rewrite('R6', '*self .root_to_widx .entry(root) .or_insert_with(|| alloc.alloc())',
@@ -214,7 +212,6 @@ def build():
             &&& (member && !s0.root_to_widx@.dom().contains(r) ==> ret.0 == old(alloc).next && final(self).root_to_widx@ == s0.root_to_widx@.insert(r, ret) && final(alloc).next == old(alloc).next + 1)
             &&& (!member ==> ret.0 == old(alloc).next && final(self).root_to_widx@ == s0.root_to_widx@ && final(alloc).next == old(alloc).next + 1)
         })''')
-    aw.at_start('broadcast use ax::expr_id_key_model;')
 
     S = 'circuit/src/builder/compiler/lowerer/state.rs'
     bf = u.extract(S, r"impl<'a, F: Field> LoweringState<'a, F>", 'backfill_connect_mappings', 'backfill_connect_mappings')
@@ -228,8 +225,7 @@ def build():
     bf.ensures('result_is_a_function_of_the_views_whatever_the_iteration_order',
                '''final(self).expr_to_widx@ == backfilled(old(self).expr_to_widx@, old(self).dsu.in_connect@, |e: ExprId| old(self).dsu.rep(e), old(self).dsu.root_to_widx@)''')
     bf.ensures('union_find_abstract_state_unchanged', 'final(self).dsu.inv() && final(self).dsu.same_classes(&old(self).dsu) && final(self).dsu.root_to_widx == old(self).dsu.root_to_widx && final(self).dsu.in_connect == old(self).dsu.in_connect')
-    bf.at_start('''broadcast use ax::expr_id_key_model;
-        let ghost m0 = self.expr_to_widx@; let ghost mem = self.dsu.in_connect@; let ghost slots = self.dsu.root_to_widx@; let ghost d0 = self.dsu;''')
+    bf.at_start('''let ghost m0 = self.expr_to_widx@; let ghost mem = self.dsu.in_connect@; let ghost slots = self.dsu.root_to_widx@; let ghost d0 = self.dsu;''')
     bf.loop('for expr_id in it: connected', invariants=[
         ('order', 'it.seq() == connected@ && connected@.no_duplicates() && connected@.to_set() == mem'),
         ('dsu', 'self.dsu.inv() && self.dsu.same_classes(&d0) && self.dsu.root_to_widx@ == slots && self.dsu.root_to_widx == d0.root_to_widx && self.dsu.in_connect == d0.in_connect && d0 == old(self).dsu'),
